@@ -306,28 +306,47 @@ func (st *State) intrinsic(fn *ssa.Function, a []Value) (Value, bool) {
 		if s, ok := strArg(a[0]); ok {
 			return Str{S: strings.TrimSpace(s)}, true
 		}
+		return st.symTrimSpace(a[0].(Str)), true
 	case "strings.Split":
 		s, ok1 := strArg(a[0])
 		sep, ok2 := strArg(a[1])
 		if ok1 && ok2 {
 			return mkStrSlice(strings.Split(s, sep)), true
 		}
+		if ok2 && len(sep) == 1 {
+			parts := st.symSplitByte(a[0].(Str), sep[0])
+			d := make([]Value, len(parts))
+			for i, p := range parts {
+				d[i] = p
+			}
+			return Slice{Data: d}, true
+		}
+		panic(errUnsupported("strings.Split with a symbolic or multi-byte separator"))
 	case "strings.Index":
 		s, ok1 := strArg(a[0])
 		sep, ok2 := strArg(a[1])
 		if ok1 && ok2 {
 			return mkInt(64, true, uint64(int64(strings.Index(s, sep)))), true
 		}
+		if ok2 && len(sep) == 1 {
+			return mkInt(64, true, uint64(int64(st.symIndexByte(a[0].(Str), sep[0])))), true
+		}
+		panic(errUnsupported("strings.Index with a symbolic or multi-byte needle"))
 	case "strings.IndexRune":
 		s, ok1 := strArg(a[0])
 		r := a[1].(Int)
 		if ok1 && r.T == nil {
 			return mkInt(64, true, uint64(int64(strings.IndexRune(s, rune(r.SVal()))))), true
 		}
+		if r.T == nil && r.SVal() < 0x80 {
+			return mkInt(64, true, uint64(int64(st.symIndexByte(a[0].(Str), byte(r.SVal()))))), true
+		}
+		panic(errUnsupported("strings.IndexRune with a symbolic or non-ASCII rune"))
 	case "strings.ToLower":
 		if s, ok := strArg(a[0]); ok {
 			return Str{S: strings.ToLower(s)}, true
 		}
+		return st.symToLower(a[0].(Str)), true
 	case "strings.Join":
 		sl := a[0].(Slice)
 		sep, ok := strArg(a[1])
@@ -353,6 +372,10 @@ func (st *State) intrinsic(fn *ssa.Function, a []Value) (Value, bool) {
 			}
 			return Tuple{mkInt(64, true, uint64(v)), Iface{}}, true
 		}
+		if base, bits := a[1].(Int), a[2].(Int); base.T == nil && bits.T == nil && base.SVal() == 10 {
+			return st.symParseInt(a[0].(Str), int(bits.SVal())), true
+		}
+		panic(errUnsupported("strconv.ParseInt with symbolic input and base != 10"))
 	case "fmt.Errorf":
 		f, _ := strArg(a[0])
 		return mkError("fmt.Errorf:" + f), true
@@ -533,8 +556,11 @@ func (st *State) vp(name string, a []Value) Value {
 		if v.T == nil {
 			return mkInt(64, true, v.C)
 		}
-		if st.choiceIdx < len(st.ForcedChoices) {
-			k := st.ForcedChoices[st.choiceIdx]
+		if fk, named := st.ForcedNamed[str(0)]; named || st.choiceIdx < len(st.ForcedChoices) {
+			k := fk
+			if !named {
+				k = st.ForcedChoices[st.choiceIdx]
+			}
 			st.choiceIdx++
 			if k >= n {
 				st.Dead = true
